@@ -22,6 +22,7 @@ EXPLANATION = (
     "written' (conversion, C04).")
 
 RULES = {
+    "C19-XC": "(thorough) decision tables of the configuration-independent functions of this property are identical in every build configuration",
     "C19-X1": "dimension values are stored below the announced capacity; skipped entries are decoded with capacity 0",
     "C19-X2": "every path reporting OK examined what follows the requested entry (comma or end of expression)",
     "C19-X3": "every path returning ERROR queued an error",
@@ -213,6 +214,8 @@ def run(ck, fb, tier):
         rule_x1(ck, prog)
         rule_walkers(ck, prog, S)
         rule_x4(ck, prog, S)
+    if tier == "thorough":
+        K.cross_config(ck, fb, "C19-XC", ['numericRange', 'channelRange', 'channelSpec', 'SCPI_ExprNumericListEntry', 'SCPI_ExprChannelListEntry'])
 
 
 TECHNIQUE = ("static analysis: decision tables of the list walkers by exhaustive path enumeration with result tracking, "
